@@ -1,9 +1,9 @@
 SPECIFICATION MCSpec
-CONSTANTS Classes = {1, 2, 3}
-  Codes = {0, 1, 2, 3}
+CONSTANTS Classes = {1, 2, 3, 4, 5}
+  Codes = {6, 7, 8}
   SortedHash = TRUE
   Full = FALSE
-  InitSizes = {4}
+  InitSizes = {8}
   Ptrs = {1}
   Vals = {1}
   SetVals <- NoSet
